@@ -20,7 +20,7 @@ LEVEL = 'model_checking'
 TECHNIQUE = ('exhaustive enumeration of marker-insertion points x damaged variants of seed descriptions x parse modes on the real '
              'PLSSDesc; oracle: the marker survives in a tract description or an unused_desc error flag')
 LEVEL_TEXT = ('19 (thorough: 43) seed descriptions x {intact, each token deleted, colons removed, stray Twp/Rge at 3 places, leading text, trailing '
-              'text} x every token boundary x 2 markers (4 letters = the reportable minimum, and 7 letters) x 12 parse modes incl. every '
+              'text} x every token boundary x 2 markers (4 letters = the reportable minimum, and 7 letters; plus 4 markers ending in connector letters and one trap marker per literal run of the patterns on the intact variants) x 12 parse modes incl. every '
               'forced layout. Every block of text between two recognised markers is thereby probed in every role the parser can '
               'assign to it (tract description, unused component, chunk leftover, re-attached sec_within text).')
 LEVEL_NOTE = ('Trusted: the exemption predicate for the window between a Twp/Rge and a following P.M. designation (the preprocessor '
@@ -35,6 +35,21 @@ ASSUMPTIONS = [
 ]
 
 MARKERS = ['QXZV', 'Zyxwvut']
+# markers that end in letters which are also connector words (a clean-up that strips 'and' / 'in' / 'of' / 'the' must not
+# bite into an ordinary word); used on the intact, colon-less, lead and trail variants
+TAIL_MARKERS = ['Woodland', 'Franklin', 'Thereof', 'Bathe']
+_TRAPS = None
+
+
+def trap_markers():
+    """One foreign word per alphabetic literal run of the library's patterns, with the run *embedded* in it
+    ('Qxpmxq', 'Qxsecxq', 'Qxlotxq', ...): a pattern that is not anchored at word boundaries must still not swallow it."""
+    global _TRAPS
+    if _TRAPS is None:
+        from .c16 import alphabet, derive_alphabet
+        alphabet()
+        _TRAPS = ['Qx' + r + 'xq' for r in getattr(derive_alphabet, 'runs', []) if r.isalpha() and len(r) >= 2]
+    return _TRAPS
 MODES = [None, 'segment', 'sec_within', 'sec_colon_required', 'sec_colon_cautious', 'segment,sec_within', 'ocr_scrub',
          'TRS_desc', 'desc_STR', 'S_desc_TR', 'TR_desc_S', 'copy_all']
 EXTRA_SEEDS = [
@@ -45,7 +60,8 @@ EXTRA_SEEDS = [
 _p = None
 # a marker that is followed, on the same line and within the reach of the meridian pattern ('.{0,25}' plus filler), by a
 # P.M. designation may be discarded together with it (exempt by the statement); the predicate is deliberately a superset
-PM_WINDOW = re.compile(r'(QXZV|Zyxwvut)[^\n]{0,45}?(P\.\s?M\.|Principal\s+Meridian)', re.IGNORECASE)
+PM_WINDOW = re.compile(r'(QXZV|Zyxwvut|Woodland|Franklin|Thereof|Bathe|Qx[a-z]+xq)[^\n]{0,45}?(?<![A-Za-z])(P\.\s?M\.|Principal\s+Meridian)',
+                       re.IGNORECASE)
 CONNECTORS = {'the', 'of', 'in', 'and', 'all'}
 
 
@@ -206,6 +222,12 @@ def run_unit(unit, tier):
             for pos in bounds:
                 for marker in MARKERS:
                     judge(acc, unit['seed'], vname, toks, pos, marker, mode, seen)
+                if vname in ('intact', 'nocolon', 'lead', 'trail'):
+                    for marker in TAIL_MARKERS:
+                        judge(acc, unit['seed'], vname, toks, pos, marker, mode, seen)
+                if vname == 'intact' and mode in (None, 'segment', 'sec_within'):
+                    for marker in trap_markers():
+                        judge(acc, unit['seed'], vname, toks, pos, marker, mode, seen)
     return acc.result()
 
 
